@@ -655,6 +655,12 @@ impl BufEngine {
                         };
                         // the intermediate is gone; the slice handed out is still the caller's to use
                         let storage_now: (usize, usize) = $storage(&$container);
+                        // a changed capacity is reported as such (whether the allocator moved the block or grew it in
+                        // place is not reproducible; the capacity is)
+                        if storage_now.1 != storage0.1 {
+                            run.viol = Some(v("container-storage-changed", &[("store", &cfg.store.to_string())], format!("the container's storage was {} bytes and is {} bytes after read_buffer on the container: a view went past the capacity it was given (or slices handed out earlier now dangle)", storage0.1, storage_now.1)));
+                            break;
+                        }
                         match r {
                             Ok(got) => {
                                 if fault >= 3 {
